@@ -17,6 +17,7 @@ Record xnum := {
   pinf : base; ninf : base; qnan : base;
   isnan : base -> bool;
   absx : base -> base;
+  negx : base -> base;
   sqrtx : base -> base
 }.
 
